@@ -132,6 +132,60 @@ pub fn scenarios() -> Vec<Scenario> {
     v
 }
 
+/// "source identical to destination" when the two are one file under different spellings (C03's alias shapes), with
+/// and without backups: rejected, and nothing renamed, created or truncated first
+pub fn judge_alias(_w: &Worker, _scen: &Scenario, ex: &Exec) -> Judgement {
+    let mut v = vec![];
+    let why = "source and destination are one file";
+    if exit0(ex) {
+        v.push(format!("exit 0 for an invocation that cannot be honoured ({})", why));
+    }
+    for (k, b) in &ex.before {
+        match ex.snap.get(k) {
+            None => v.push(format!("{} disappeared ({})", k, why)),
+            Some(a) => {
+                if let Some(d) = b.diff_all(a) {
+                    v.push(format!("{} changed: {} ({})", k, d, why));
+                }
+            }
+        }
+    }
+    for k in ex.snap.keys() {
+        if !ex.before.contains_key(k) {
+            v.push(format!("{} was created although the invocation must be rejected ({})", k, why));
+        }
+    }
+    v.truncate(6);
+    simple_judge(v, ex, true)
+}
+
+pub fn alias_scenarios() -> Vec<Scenario> {
+    let mut v = vec![];
+    for s in c03::alias_scenarios() {
+        v.push(s.clone());
+        if s.name.ends_with("-numbered") {
+            // auto mode with a backup already present behaves like numbered
+            let mut a = s.clone();
+            a.name = a.name.replace("-numbered", "-auto");
+            for x in a.args.iter_mut() {
+                if x == "numbered" {
+                    *x = "auto".into();
+                }
+            }
+            let dest = a.args.last().cloned().unwrap_or_default();
+            if !dest.ends_with('.') && !dest.contains("..") && !dest.contains("{R}") {
+                let mut cwd = a.cwd.clone();
+                if !cwd.is_empty() {
+                    cwd.push('/');
+                }
+                a.tree.push(Entry::file(&format!("{}{}.~1~", cwd, dest.trim_start_matches("./")), "an older backup").mtime(1_100_000_000, 1));
+                v.push(a);
+            }
+        }
+    }
+    v
+}
+
 pub fn run(ctx: &Ctx) -> Report {
     let mut rep = Report::new(
         "model_checking",
@@ -142,6 +196,11 @@ pub fn run(ctx: &Ctx) -> Report {
     let n = sc.len();
     let st = scen_batch(ctx, sc, &[Policy::P0, Policy::P1], j);
     rep.part("rejection classes x positions x destination states", st, serde_json::json!({"scenarios": n}));
+    let sc = alias_scenarios();
+    let n = sc.len();
+    let ja: Judge = &judge_alias;
+    let st = scen_batch(ctx, sc, &[Policy::P0, Policy::P1], ja);
+    rep.part("source and destination one file under different spellings (dot-slash, .., own directory, absolute, symlink, hard link, linked directory) x backup {none, numbered, auto with a backup present}", st, serde_json::json!({"scenarios": n}));
     rep.assumptions = vec!["under -g a pattern matching nothing next to patterns that match is documented as dropped and is not among the property's classes".into()];
     rep
 }
